@@ -40,7 +40,8 @@ def _ends_with_newline(e: ast.expr) -> bool | None:
 
 def file_ops(prog: Program, fi: FuncInfo):
     """CFG of ``fi`` annotated with file operations: node id -> list of (op, call, detail)."""
-    fi = flat(prog, fi, fi.cls)
+    # public pieces an observer's call was split into (clear() / write_state() …) are seen through
+    fi = flat(prog, fi, fi.cls, keep=("to_dict", "from_dict", "close", "create_header"), public_methods=True)
     inl = Inliner(fi.node)
 
     def rtxt(e):
